@@ -119,9 +119,31 @@ where
             //   "Messages carried by UDP are restricted to 512 bytes (not
             //    counting the IP or UDP headers).  Longer messages are
             //    truncated and the TC bit is set in the header."
-            let max_response_size = ctx
-                .max_response_size_hint()
-                .unwrap_or(MINIMUM_RESPONSE_BYTE_LEN);
+            //
+            // https://datatracker.ietf.org/doc/html/rfc6891#section-7
+            //   "Lack of presence of an OPT record in a request MUST be
+            //    taken as an indication that the requestor does not
+            //    implement any part of this specification"
+            //
+            // So the transport supplied hint, which may be larger than 512
+            // bytes, only applies to requests that carry an OPT record, and
+            // then never allows more than the requestor advertised (values
+            // lower than 512 being treated as 512 per RFC 6891 section
+            // 6.2.3). The latter matters for responses that are generated
+            // before the EDNS middleware had a chance to adjust the hint.
+            let max_response_size = match request.message().opt() {
+                Some(opt) => {
+                    let requestors_size = u16::max(
+                        MINIMUM_RESPONSE_BYTE_LEN,
+                        opt.udp_payload_size(),
+                    );
+                    ctx.max_response_size_hint()
+                        .map_or(requestors_size, |hint| {
+                            u16::min(hint, requestors_size)
+                        })
+                }
+                None => MINIMUM_RESPONSE_BYTE_LEN,
+            };
             let max_response_size = max_response_size as usize;
             let response_len = response.as_slice().len();
 
